@@ -100,6 +100,7 @@ func (fr *Frame) stdModel(name string, fn *ssa.Function, args []Val, pos token.P
 	case "errors.New", "fmt.Errorf":
 		r := FreshVar("err", SIface)
 		c.assume(Not(Eq(DataField_(r, 0), BVLit(0, 32))))
+		fr.ghostOr("ghost:errRaised", TTrue)
 		return one(r)
 	case "fmt.Sprintf", "fmt.Sprint", "strconv.Itoa", "strconv.FormatUint", "strconv.FormatInt", "strings.Repeat", "strings.TrimRight", "strings.ToLower":
 		r := FreshVar("str", SSlice)
